@@ -7,7 +7,15 @@
      run        the execution proper of the operation's selection with an event
                 as root value (Executor.execute_fields on the root type), reading
                 and extending the executor's caches; returns the new caches, the
-                data and the errors it registered, in registration order
+                data and the errors it registered, in registration order.
+                An execution that is aborted by a non-field exception (a value
+                its scalar cannot serialise, an unexpected resolver exception)
+                is a [run] whose data says so (the [data] type is arbitrary:
+                e.g. [option tree]) and whose error list holds what had been
+                registered before the abort; no GraphQLResult is built then,
+                the exception leaves AsyncMap.__anext__, the stream object
+                stays usable and the next __anext__ pulls the next event (see
+                [observe] in Spec/SubscribeSpec.v)
      c_created  the caches as create_source_event_stream leaves them
    The source event stream is a finite list with a consumption counter. *)
 From PyGql Require Import Base.Str.
@@ -40,6 +48,15 @@ Section SubscribeModel.
   (* the same without the clearing step (for the example showing it matters) *)
   Definition on_event_noclear (s : exec_state) (e : event) : exec_state * result :=
     exec_event s e.
+
+  (* a variant that hands the errors over and clears the list only when the
+     event completes (in the completion callback) instead of when it starts:
+     [completed] says whether the event's execution completed; when it aborts
+     (a non-field exception leaves execute_fields) the callback never runs *)
+  Definition on_event_clear_at_end (completed : data -> bool) (s : exec_state) (e : event)
+    : exec_state * result :=
+    let '(s', r) := exec_event s e in
+    if completed (fst r) then (clear_errors s', r) else (s', r).
 
   (* ---- AsyncMap over the source *)
   Inductive trace_ev :=
